@@ -9,6 +9,7 @@ import (
 	"strings"
 	"testing"
 	"testing/synctest"
+	"time"
 
 	sgbucket "github.com/couchbase/sg-bucket"
 	"github.com/couchbaselabs/rosmar"
@@ -22,8 +23,19 @@ import (
 // ---------------------------------------------------------------------------------------
 
 type lcStore struct {
-	name string
-	data map[string]string
+	name  string
+	data  map[string]string
+	feeds []*lcFeed
+}
+
+// lcFeed is a live feed started through one handle of a store. It should run until the store is
+// deleted or (on disk) its last handle is closed, whichever handle it was started through.
+type lcFeed struct {
+	log      *FeedLog
+	id       string
+	expected int  // events it must have received so far
+	ended    bool // the model says it has ended
+	unknown  bool // in-memory store without any open handle: whether it still runs is not specified
 }
 
 type lcHandle struct {
@@ -46,6 +58,8 @@ type e13 struct {
 	step   int
 	logOn  bool
 	n      int
+
+	allFeeds []*lcFeed
 }
 
 func (e *e13) logf(format string, args ...any) {
@@ -100,17 +114,31 @@ func (e *e13) run() {
 	}
 	e.root = dir
 	e.slots = make([]*lcHandle, 5)
+	var foreign []*Violation
 	for i := range e.p.Ops {
 		e.step = i
 		op := &e.p.Ops[i]
-		if v := e.doStep(op); v != nil {
+		v := e.doStep(op)
+		if v == nil {
+			synctest.Wait()
+			v = e.probeAll()
+		}
+		if v != nil {
+			if e.p.Prop != "" && !v.Has(e.p.Prop) && len(foreign) < 3 {
+				// another property's oracle: note it and go on, the property under check may be hit later
+				// (its oracles rest on the model of handles and stores, not on what rosmar did so far)
+				foreign = append(foreign, v)
+				continue
+			}
 			e.res.Violation = v
 			break
 		}
-		synctest.Wait()
-		if v := e.probeAll(); v != nil {
-			e.res.Violation = v
-			break
+	}
+	if len(foreign) > 0 {
+		if e.res.Violation == nil {
+			e.res.Violation = foreign[0]
+		} else {
+			e.res.All = append([]*Violation{e.res.Violation}, foreign...)
 		}
 	}
 	e.res.Stats.Ops = len(e.p.Ops)
@@ -217,6 +245,15 @@ func (e *e13) doStep(op *Op) *Violation {
 				e.cnt[h.name]--
 				if e.cnt[h.name] == 0 && h.loc != "mem" {
 					delete(e.reg, h.name) // last handle of an on-disk bucket: database closed, data stays
+					for _, f := range h.store.feeds {
+						f.ended = true
+					}
+					h.store.feeds = nil
+				}
+				if e.cnt[h.name] == 0 && h.loc == "mem" {
+					for _, f := range h.store.feeds {
+						f.unknown = true
+					}
 				}
 			}
 		} else {
@@ -245,6 +282,29 @@ func (e *e13) doStep(op *Op) *Violation {
 		e.dropStore(h.name, e.locKey(h.name, h.loc))
 		h.open = false
 		e.res.Stats.NonTrivial = true
+	case "StartFeed":
+		h := e.slots[slot]
+		if h == nil || !h.open || h.killed {
+			return nil
+		}
+		ds := h.b.DefaultDataStore()
+		if ds == nil {
+			return nil // (probeAll reports broken handles)
+		}
+		e.n++
+		f := &lcFeed{id: fmt.Sprintf("lf%d", e.n)}
+		f.log = &FeedLog{ID: f.id, Done: make(chan struct{}), Term: make(chan bool)}
+		args := sgbucket.FeedArguments{ID: f.id, Backfill: sgbucket.FeedNoBackfill, Terminator: f.log.Term, DoneChan: f.log.Done}
+		if err := ds.(*rosmar.Collection).StartDCPFeed(context.Background(), args, f.log.callback, nil); err != nil {
+			return &Violation{Tags: []string{"C16", "C13"}, Oracle: "lifecycle.feed-start", Msg: fmt.Sprintf("step %d: starting a feed through the open handle in slot %d of %q failed: %v", e.step, slot, h.name, err), Step: e.step}
+		}
+		h.store.feeds = append(h.store.feeds, f)
+		e.allFeeds = append(e.allFeeds, f)
+		e.logf("#%d StartFeed(slot %d %s) = %s", e.step, slot, h.name, f.id)
+	case "Idle":
+		// nothing happens for a while (simulated time): every store must still be there afterwards
+		time.Sleep(time.Duration(op.Dur) * time.Second)
+		e.logf("#%d Idle(%d s)", e.step, op.Dur)
 	case "Write":
 		h := e.slots[slot]
 		if h == nil {
@@ -259,12 +319,56 @@ func (e *e13) doStep(op *Op) *Violation {
 		}
 		if err == nil {
 			h.store.data[op.Key] = val
+			e.wrote(h.store)
+		}
+	}
+	return nil
+}
+
+// wrote: a write to the store succeeded; every feed that should be running on it gets one event.
+func (e *e13) wrote(st *lcStore) {
+	for _, f := range st.feeds {
+		if !f.ended {
+			f.expected++
+		}
+	}
+}
+
+// checkFeeds: feeds that should run have received every event so far and are not done; feeds
+// that should have ended are done.
+func (e *e13) checkFeeds() *Violation {
+	synctest.Wait()
+	for _, f := range e.allFeeds {
+		n := 0
+		for _, ev := range f.log.Snapshot() {
+			if ev.Opcode == sgbucket.FeedOpMutation || ev.Opcode == sgbucket.FeedOpDeletion {
+				n++
+			}
+		}
+		switch {
+		case f.ended:
+			if !f.log.IsDone() {
+				return &Violation{Tags: []string{"C16"}, Oracle: "lifecycle.feed-not-ended", Msg: fmt.Sprintf("step %d: feed %s is still running although its bucket was deleted or the last handle of its on-disk bucket was closed", e.step, f.id), Step: e.step}
+			}
+		case f.unknown:
+		default:
+			if f.log.IsDone() {
+				return &Violation{Tags: []string{"C16"}, Oracle: "lifecycle.feed-ended-early", Msg: fmt.Sprintf("step %d: feed %s has ended although its bucket still has open handles (closing other handles, or handles of another bucket of that name, must not stop it)", e.step, f.id), Step: e.step}
+			}
+			if n < f.expected {
+				return &Violation{Tags: []string{"C16", "C08"}, Oracle: "lifecycle.feed-starved", Msg: fmt.Sprintf("step %d: feed %s has received %d of the %d mutations made to its bucket since it started", e.step, f.id, n, f.expected), Step: e.step}
+			}
 		}
 	}
 	return nil
 }
 
 func (e *e13) dropStore(name, lk string) {
+	if st := e.stores[lk]; st != nil {
+		for _, f := range st.feeds {
+			f.ended = true
+		}
+	}
 	delete(e.stores, lk)
 	delete(e.reg, name)
 	delete(e.cnt, name)
@@ -350,11 +454,15 @@ func (e *e13) probeAll() *Violation {
 		}
 		if err == nil {
 			h.store.data[key] = val
+			e.wrote(h.store)
 		}
 		err = e.dsOf(h, func(ds sgbucket.DataStore) error { _, _, err := ds.GetRaw(key); return err })
 		if v := e.judgeCall("read", h, err); v != nil {
 			return v
 		}
+	}
+	if v := e.checkFeeds(); v != nil {
+		return v
 	}
 	// registry listing: an open bucket is listed, a deleted one is not
 	listed := map[string]bool{}
@@ -396,7 +504,7 @@ func (e *e13) probeAll() *Violation {
 // GenE13 builds a lifecycle script.
 func GenE13(prop string, seed uint64) *Program {
 	r := NewRng(seed ^ 0x1313)
-	prog := &Program{Engine: "e13", Seed: seed}
+	prog := &Program{Engine: "e13", Prop: prop, Seed: seed}
 	names := []string{"ba", "bb"}
 	locs := []string{"mem", "dirA", "dirB"}
 	if r.Chance(30) {
@@ -405,6 +513,7 @@ func GenE13(prop string, seed uint64) *Program {
 		locs = []string{"dirA", "dirB"}
 	}
 	modes := []string{"any", "any", "new", "reopen"}
+	withFeeds := prop == "C16" || r.Chance(30)
 	type slotState struct{ used, open bool }
 	slots := make([]slotState, 5)
 	// which name a directory was created under (the generator keeps one name per directory)
@@ -450,6 +559,10 @@ func GenE13(prop string, seed uint64) *Program {
 			for d := range dirName {
 				_ = d
 			}
+		case t < 84 && t >= 78 && len(used) > 0 && withFeeds:
+			prog.Ops = append(prog.Ops, Op{Kind: "StartFeed", Handle: used[r.Intn(len(used))]})
+		case t < 78 && len(used) > 0:
+			prog.Ops = append(prog.Ops, Op{Kind: "Idle", Dur: []int{2, 10, 90, 700, 4000}[r.Intn(5)]})
 		case len(used) > 0:
 			s := used[r.Intn(len(used))]
 			prog.Ops = append(prog.Ops, Op{Kind: "Write", Handle: s, Key: fmt.Sprintf("k%d", r.Intn(3))})
